@@ -580,7 +580,9 @@ func corpus() []struct {
 	tb := nodeIn{K: "a", Name: "root", Ch: []nodeIn{
 		{K: "a", Name: "a1", Ch: []nodeIn{{K: "t", Name: "t1", Crit: true}, {K: "t", Name: "t2", Crit: true}}},
 		{K: "t", Name: "t3", Crit: true}}}
-	// C11-c: an aggregator whose iterator expands to nothing, next to a task that becomes ACTIVE
+	// was finding C11-c (loader repaired in 3e1e68b): an aggregator whose iterator expands to
+	// nothing, next to a task that becomes ACTIVE.  a1 is pruned now and the root goes ACTIVE; were
+	// it kept, the loaded tree would be flagged (monitor code 10)
 	tc := nodeIn{K: "a", Name: "root", Ch: []nodeIn{
 		{K: "a", Name: "a1", Ch: []nodeIn{{K: "r", Name: "r1", N: 0, Ch: []nodeIn{{K: "t", Name: "t1", Crit: true}}}}},
 		{K: "t", Name: "t2", Crit: true}}}
@@ -593,6 +595,10 @@ func corpus() []struct {
 		{"conc", input{Tree: tb, Ops: []opIn{{Leaf: "root.a1.t1", S: true, V: int(sm.ERROR)}, {Leaf: "root.a1.t1", S: true, V: int(sm.STANDBY)}},
 			Sched: []int{0, 1, 1, 1, 1, 0, 0, 0}}},
 		{"seq", input{Tree: tc, Ops: []opIn{{Leaf: "root.t2", S: false, V: int(task.ACTIVE)}}}},
+		// a workflow with nothing at all below its root (the root cannot be pruned): no task, no
+		// update, nothing to fold; the monitor does not judge what the root says
+		{"seq", input{Tree: nodeIn{K: "a", Name: "root", Ch: []nodeIn{
+			{K: "r", Name: "r1", N: 0, Ch: []nodeIn{{K: "t", Name: "t1", Crit: true}}}}}}},
 	}
 }
 
@@ -654,7 +660,7 @@ func main() {
 		}
 		cases = append(cases, generate(o)...)
 	}
-	extra := map[string]any{"note": "cases 0-5 are the corpus: C11-a witness (twice), C11-b witness schedule, C11-c witness, two gate cases (state: the split-merge witness of C11_error_lost_if_merge_not_atomic plus an aggregator for the gate; status: the same tree)",
+	extra := map[string]any{"note": "cases 0-6 are the corpus: C11-a witness (twice), C11-b witness schedule, the former C11-c witness (aggregator over an empty iterator, pruned by the loader since 3e1e68b), a workflow with nothing below its root, two gate cases (state: the split-merge witness of C11_error_lost_if_merge_not_atomic plus an aggregator for the gate; status: the same tree)",
 		"gate_wait_ms": int(gateWait() / 1e6)}
 	if err := gen.WriteCases(o, "C11", "From Verif Require Import Common RoleTree.", "c11_case", "report11", cases, extra); err != nil {
 		panic(err)
